@@ -47,13 +47,71 @@ fn visit(v: &Visit, st: &mut Stats) -> CaseResult {
     check_board(v)
 }
 
+/// Near-legal move values of a board: every pseudo-legal move (legal or not), every king ->
+/// own rook candidate, each also with the promotion field set to a queen, a king and (for
+/// promotions) removed. These are the values where `is_legal` has to work hardest, at about
+/// 1/200 of the cost of the full 28 672-value sweep.
+pub fn near_legal_moves(p: &Pos) -> Vec<RMove> {
+    let mut out: Vec<RMove> = Vec::new();
+    let mut base = p.pseudo_moves();
+    if let Some(k) = p.king_sq(p.stm) {
+        for s in 0..64u8 {
+            if p.board[s as usize] == Some((Kind::R, p.stm)) {
+                base.push(RMove { from: k, to: s, promo: None });
+            }
+        }
+    }
+    for m in base {
+        out.push(m);
+        for promo in [None, Some(Kind::Q), Some(Kind::K), Some(Kind::P)] {
+            if promo != m.promo {
+                out.push(RMove { promo, ..m });
+            }
+        }
+    }
+    out.sort_unstable();
+    out.dedup();
+    out
+}
+
+pub fn check_near_legal(v: &Visit) -> CaseResult {
+    let mut generated: HashSet<Move> = HashSet::new();
+    v.board.generate_moves(|pm| {
+        for m in pm {
+            generated.insert(m);
+        }
+        false
+    });
+    for rm in near_legal_moves(v.pos) {
+        let m = lmove(rm);
+        let legal = v.board.is_legal(m);
+        if legal != generated.contains(&m) {
+            return Err(v
+                .fail(if legal { "C04:is_legal-true-for-ungenerated" } else { "C04:is_legal-false-for-generated" }, format!("{}: is_legal({}) = {} but generation {} that move", v.describe(), rm.text(), legal, if legal { "does not yield" } else { "yields" }))
+                .with("move", rm.text()));
+        }
+    }
+    Ok(())
+}
+
 pub fn run(ctx: &Ctx) -> Report {
     let mut rep = Report::new(ctx);
-    rep.rule = "Boards from generated histories (DFRC starts, seed FENs, constructed/motif boards); for each sampled board ALL 64x64x7 move values (promotion none, pawn, knight, bishop, rook, queen, king) are put to is_legal and compared with membership in the library's own generated move set. evaluations = move values queried; distinct non-trivial = distinct boards where the mover is in check, has a piece on a pin line, an EP file or a castling right.".into();
+    rep.rule = "Boards from generated histories (DFRC starts, seed FENs, constructed/motif boards); for each sampled board ALL 64x64x7 move values (promotion none, pawn, knight, bishop, rook, queen, king) are put to is_legal and compared with membership in the library's own generated move set. A second, focused part puts only the near-legal values (every pseudo-legal move, every king-to-own-rook candidate, each with the promotion field varied) to is_legal on EVERY position of ten times as many histories. evaluations = move values queried; distinct non-trivial = distinct boards where the mover is in check, has a piece on a pin line, an EP file or a castling right.".into();
     rep.assumptions = vec!["the generated set is taken from the library itself, as the property states (C01 ties generation to the rules)".into()];
     rep.required_classes = vec!["checkers=1", "checkers=2", "own-piece-pinned", "ep-capture-pseudo-but-illegal", "castle-legal", "castle-refused-through-attack", "promotion-available"];
     let cases = ctx.tier.scale(16_000, 25);
     rep.add(positions(ctx, "walk", cases, (1, 3, 6), 24, visit));
+    // focused sweep: near-legal move values on EVERY position of many more histories
+    rep.add(positions(ctx, "near-legal", ctx.tier.scale(150_000, 25), (2, 3, 7), 40, |v, st| {
+        let n = near_legal_moves(v.pos).len() as u64;
+        st.eval(n);
+        st.count("boards-near-legal-sweep", 1);
+        ep_check_classes(v.pos, st);
+        if v.pos.in_check(v.pos.stm) || v.pos.pinned_mask() != 0 || v.pos.ep.is_some() {
+            st.nontrivial(pos_hash(v.pos) ^ 0x5555);
+        }
+        check_near_legal(v)
+    }));
     rep
 }
 
@@ -65,6 +123,7 @@ pub fn replay(m: &ReplayMap) -> CaseResult {
                 return Ok(());
             }
         }
-        check_board(v)
+        check_board(v)?;
+        check_near_legal(v)
     })
 }
